@@ -1189,8 +1189,45 @@ def literal_fast_path(run, ctx):
         c = H.canon(fn["body"])
         I = fn["params"][1].get("name")
         n += 1
-        if not H.pat_match("let {insn} = if %s.is_literal() {let {v} = String::new(); %s.push_literal({v}); Insn::Lit({v})} else {DelegateBuilder::new().push(%s).build(self.options)?}; self.b.add({insn}); Ok(())" % (I, I, I), c):
-            run.violation(fam, label, "compile_delegate", H.where(fn), "compile_delegate must emit Lit(text) exactly for literal sub-expressions and a Delegate built from the user's options otherwise, found %s" % c[:200])
+        # path by path: literal -> one Lit holding the text push_literal collected; otherwise one instruction built by a
+        # fresh DelegateBuilder that was given exactly this sub-expression and the user's options
+        seenp = {True: 0, False: 0}
+        badp = None
+        for p in S.paths_of(fn["body"]):
+            if p.exit == "try-err":
+                continue
+            lit = [ev.b for ev in p.events if ev.kind == "cond" and ev.a == "%s.is_literal()" % I]
+            if not lit:
+                badp = "a path does not ask whether the sub-expression is a literal"
+                break
+            seenp[bool(lit[0])] += 1
+            lets_ = {ev.a.replace("mut ", ""): ev.b for ev in p.events if ev.kind == "let" and re.match(r"^(mut )?\w+$", ev.a or "")}
+            adds = [ev.a for ev in p.events if ev.kind == "call" and (ev.a or "").startswith("self.b.add(")]
+            calls_ = [ev.a or "" for ev in p.events if ev.kind == "call"]
+            if len(adds) != 1 or S.ret_value(p) != "Ok(())":
+                badp = "exactly one instruction is emitted and Ok(()) returned (found %s)" % adds
+                break
+            arg = adds[0][len("self.b.add("):-1]
+            arg = lets_.get(arg, arg)
+            if lit[0]:
+                m_ = re.match(r"^Insn::Lit\((\w+)\)$", arg)
+                if not m_ or lets_.get(m_.group(1)) != "String::new()" or "%s.push_literal(%s)" % (I, m_.group(1)) not in calls_ or any(".build(" in c_ for c_ in calls_):
+                    badp = "a literal sub-expression must become Lit(text collected by push_literal into a fresh String) (found %s)" % arg
+                    break
+            else:
+                m_ = re.match(r"^(.*)\.build\(self\.options\)\?$", arg)
+                recv = m_.group(1) if m_ else None
+                ok_ = False
+                if recv == "DelegateBuilder::new().push(%s)" % I:
+                    ok_ = True
+                elif recv and lets_.get(recv) == "DelegateBuilder::new()":
+                    pushes = [c_ for c_ in calls_ if c_.startswith(recv + ".push(")]
+                    ok_ = pushes == ["%s.push(%s)" % (recv, I)]
+                if not ok_ or any("push_literal(" in c_ for c_ in calls_):
+                    badp = "a non-literal sub-expression must become the instruction built by a fresh DelegateBuilder given this sub-expression and self.options (found %s)" % arg
+                    break
+        if badp or min(seenp.values()) < 1:
+            run.violation(fam, label, "compile_delegate", H.where(fn), "compile_delegate must emit Lit(text) exactly for literal sub-expressions and a Delegate built from the user's options otherwise: %s; found %s" % (badp or seenp, c[:200]))
     fn = S.get_fn(run, ctx, "compile::Compiler::compile_delegates", fam, label)
     if fn is not None:
         c = H.canon(fn["body"])
